@@ -32,7 +32,7 @@ Ltac inv_step_tac :=
 Lemma step_inv s l s' : Inv s -> step s l = Some s' -> Inv s'.
 Proof.
   intros [Ih Ie Io Id Is Inn] H. destruct Io as [Io1 Io2]. destruct Id as [Id1 Id2].
-  destruct l as [dl|t| | | | |tag| | | | | | |tag]; cbn in H.
+  destruct l as [dl|t| | | | | |tag| | | | | | |tag]; cbn in H.
   - (* Enter *)
     destruct (p s) eqn:P; try discriminate.
     destruct (Z.ltb_spec dl (now s)); inv_step_tac; constructor; cbn; try discriminate.
@@ -49,6 +49,11 @@ Proof.
     + split; assumption.
     + exact Is.
     + exact Inn.
+  - (* OuterTimeout *)
+    destruct (p s) eqn:P; try discriminate. inv_step_tac. constructor; cbn; try discriminate.
+    + intros _. split; [lia|]. right. reflexivity.
+    + split; [lia|]. intros X. congruence.
+    + split; [intros g []|intros g X; discriminate].
   - (* Fire *)
     destruct (not_entered (p s) || (now s <? deadline s) || evt s || completed s) eqn:G; [discriminate|].
     apply orb_false_iff in G as [G G4]. apply orb_false_iff in G as [G G3]. apply orb_false_iff in G as [G1 G2].
@@ -195,7 +200,7 @@ Lemma owed_persists s l s' g : Inv s -> step s l = Some s' -> owed s = Some g ->
   owed s' = Some g \/ l = Discard g \/ l = ConnClosed.
 Proof.
   intros I H O. destruct (proj2 (inv_disc s I) g O) as [P E].
-  destruct l as [dl|t| | | | |tag| | | | | | |tag]; cbn in H; rewrite ?P, ?E in H; cbn in H; try discriminate.
+  destruct l as [dl|t| | | | | |tag| | | | | | |tag]; cbn in H; rewrite ?P, ?E in H; cbn in H; try discriminate.
   - destruct (t <? now s); [discriminate|]. inversion H; subst. left. exact O.
   - rewrite !orb_true_r in H. discriminate.
   - destruct (completed s); [discriminate|]. cbn in H. inversion H; subst. left. exact O.
